@@ -243,6 +243,7 @@ type c46Env struct {
 	mu     sync.Mutex
 	run    *c46Run // current run (handlers and logger look it up)
 	urlBad []string
+	bodies [][]byte // image contents, computed once
 }
 
 type c46ImgRT struct {
@@ -389,7 +390,7 @@ func (e *c46Env) ServeHTTP(w http.ResponseWriter, rq *http.Request) {
 	case "drop":
 		hijackClose("", nil)
 	case "truncate":
-		body := im.content()
+		body := e.bodies[idx]
 		hijackClose(fmt.Sprintf("HTTP/1.1 200 OK\r\nContent-Type: image/png\r\nContent-Length: %d\r\n\r\n", len(body)+10), body)
 	case "toolarge":
 		w.Header().Set("Content-Type", "image/png")
@@ -406,7 +407,7 @@ func (e *c46Env) ServeHTTP(w http.ResponseWriter, rq *http.Request) {
 			sent += n
 		}
 	default:
-		body := im.content()
+		body := e.bodies[idx]
 		if im.CType == "" {
 			w.Header()["Content-Type"] = nil // no header and no sniffing by net/http
 		} else {
@@ -501,6 +502,10 @@ func c46Setup(h *hx.H, c *c46Case) *c46Env {
 	}
 	e.hrefs = make([]string, len(c.Imgs))
 	e.paths = make([]string, len(c.Imgs))
+	e.bodies = make([][]byte, len(c.Imgs))
+	for i := range c.Imgs {
+		e.bodies[i] = c.Imgs[i].content()
+	}
 	for i := range c.Imgs {
 		im := &c.Imgs[i]
 		switch {
@@ -527,7 +532,7 @@ func c46Setup(h *hx.H, c *c46Case) *c46Env {
 		switch im.Fail {
 		case "":
 			if im.Regular {
-				err = os.WriteFile(e.paths[i], im.content(), 0o644)
+				err = os.WriteFile(e.paths[i], e.bodies[i], 0o644)
 			} else {
 				err = syscall.Mkfifo(e.paths[i], 0o644)
 			}
@@ -648,7 +653,7 @@ func c46RunPhase(e *c46Env, remote bool, in []byte, elig []int, prio map[int]int
 			return
 		}
 		if isFifo(i) && !rt.written.Load() {
-			err := c46WriteFifo(e.paths[i], c.Imgs[i].content(), c46GateWait, r.abort, rt.post)
+			err := c46WriteFifo(e.paths[i], e.bodies[i], c46GateWait, r.abort, rt.post)
 			if err == errC46NoReader {
 				return // the oracle will tell what that means
 			}
@@ -795,7 +800,7 @@ func c46RunPhase(e *c46Env, remote bool, in []byte, elig []int, prio map[int]int
 				wg.Add(1)
 				go func(i int) {
 					defer wg.Done()
-					if c46WriteFifo(e.paths[i], c.Imgs[i].content(), c46GateWait, r.abort, r.rt[i].post) == nil {
+					if c46WriteFifo(e.paths[i], e.bodies[i], c46GateWait, r.abort, r.rt[i].post) == nil {
 						r.rt[i].written.Store(true)
 					}
 				}(i)
@@ -816,7 +821,7 @@ func c46RunPhase(e *c46Env, remote bool, in []byte, elig []int, prio map[int]int
 				wg.Add(1)
 				go func(i int) {
 					defer wg.Done()
-					c46WriteFifo(e.paths[i], c.Imgs[i].content(), 2*time.Second, nil, r.rt[i].post)
+					c46WriteFifo(e.paths[i], e.bodies[i], 2*time.Second, nil, r.rt[i].post)
 				}(i)
 			}
 		}
@@ -1033,7 +1038,7 @@ func checkC46(h *hx.H, c c46Case) {
 					failKinds[kind+":"+im.Fail] = true
 					continue
 				}
-				body := im.content()
+				body := e.bodies[i]
 				ct := ""
 				if remote {
 					ct = im.CType
@@ -1494,11 +1499,11 @@ func genC46(t *rapid.T) c46Case {
 		} else {
 			im.Data = rapid.SampledFrom(c46Contents).Draw(t, "content")
 		}
-		switch gen.Pick(t, "pad", 12, 3, 1) {
+		switch gen.Pick(t, "pad", 20, 4, 1) {
 		case 1:
 			im.Pad = rapid.IntRange(1, 600).Draw(t, "padn")
 		case 2:
-			im.Pad = rapid.IntRange(60_000, 150_000).Draw(t, "padbig")
+			im.Pad = rapid.IntRange(66_000, 100_000).Draw(t, "padbig") // more than a pipe buffer
 		}
 		fails := gen.Pick(t, "fails", 3, 2) == 1
 		if httpImg {
